@@ -1,12 +1,206 @@
-//! C15: harness not built yet.
+//! C15: nonce uniqueness (send counters, retransmissions) and uniqueness of locally chosen
+//! session / exchange identifiers, at unit level on the real session table.
+//!
+//! Case kind `tab` (see `transport_common.rs`): a real `Matter`'s `Sessions`, real
+//! `Exchange::initiate_for_session` / `Exchange::drop`, `Session::{post_recv, pre_send}`,
+//! `Sessions::{get_next_sess_id, get_next_exch_id}`.
+use crate::proto::{parse_cases, Out};
+use crate::rng::Rng;
 use crate::Args;
 
-pub fn gen(_a: &Args) -> String {
-    eprintln!("C15: harness not built yet");
-    std::process::exit(2);
+#[path = "transport_common.rs"]
+mod tc;
+use tc::{parse_snap, result_of, run_tab_with, GSnap};
+
+const RULE: &str = "a case is one op history on a fresh real session table (1-4 sessions added, local ids taken from get_next_sess_id, allocators positioned at 1/2/65534/65535/random/onto live ids; then a state-aware random mix of initiate, exchange drop, received messages that open responder exchanges near the allocator position, accept, new sends, retransmissions with identical arguments, matching/mismatching acks, session add/remove, virtual time); non-trivial = the history contains an allocator skip over a live id or a retransmission (rt 1); distinct = by op list";
+
+fn live_slots(g: &GSnap) -> Vec<(u32, usize, u32, String, bool)> {
+    let mut v = Vec::new();
+    for s in &g.sessions {
+        for (i, sl) in s.slots.iter().enumerate() {
+            if let Some(sl) = sl {
+                v.push((s.uid, i, sl.id, sl.role.clone(), sl.rt.is_some()));
+            }
+        }
+    }
+    v
 }
 
-pub fn replay(_a: &Args) -> String {
-    eprintln!("C15: harness not built yet");
-    std::process::exit(2);
+fn gen_case(r: &mut Rng, out: &mut Out, len: usize) {
+    let mut nt = false;
+    let mut stats: Vec<&'static str> = Vec::new();
+    run_tab_with(out, &mut |exec| {
+        let edge: [u64; 8] = [1, 2, 3, 65533, 65534, 65535, 0x1234, 0x2222];
+        let v = if r.chance(1, 2) { *r.pick(&edge) } else { r.range(1, 65535) };
+        let mut g = parse_snap(&exec(&format!("setxid {}", v)));
+        let v = if r.chance(1, 2) { *r.pick(&edge) } else { r.range(1, 65535) };
+        g = parse_snap(&exec(&format!("setsid {}", v)));
+        let mut next_h = 0u32;
+        let mut handles: Vec<(u32, u32, usize)> = Vec::new(); // handle, uid, slot
+        let mut orig_tx: Vec<(u32, usize, String)> = Vec::new(); // uid, slot, op text of the pending original
+        let mut peer_ctr: u64 = r.range(1, 1 << 20);
+        let nsess = r.range(1, 4);
+        for i in 0..nsess {
+            let full = exec(&format!("add {} 0 {}", r.below(1 << 32), 5000 + i));
+            if let Some(id) = result_of(&full).strip_prefix("id ") {
+                let id: u32 = id.parse().unwrap_or(0);
+                exec(&format!("mode {} {}", id, if r.chance(1, 2) { "c" } else { "p" }));
+                let full = exec("sid");
+                let sid = result_of(&full).to_string();
+                g = parse_snap(&exec(&format!("lsid {} {}", id, sid)));
+            }
+        }
+        for _ in 0..len {
+            let sess: Vec<u32> = g.sessions.iter().map(|s| s.uid).collect();
+            let live = live_slots(&g);
+            let pick_sess = |r: &mut Rng| -> u32 { if sess.is_empty() { 0 } else { *r.pick(&sess) } };
+            let op: String = match r.below(100) {
+                0..=21 => {
+                    next_h += 1;
+                    format!("init {} h{}", pick_sess(r), next_h)
+                }
+                22..=29 => {
+                    if handles.is_empty() { "xid".into() } else {
+                        let i = r.below(handles.len() as u64) as usize;
+                        format!("xdrop h{}", handles[i].0)
+                    }
+                }
+                30..=41 => {
+                    // a received message; exchange id near the allocator, near a live id, or random
+                    let near: u64 = match r.below(4) {
+                        0 => g.next_xid as u64 + r.below(3),
+                        1 if !live.is_empty() => r.pick(&live).2 as u64 + r.below(2),
+                        2 => r.range(1, 65535),
+                        _ => g.next_xid as u64,
+                    };
+                    peer_ctr += r.range(1, 3);
+                    format!("rx {} {} {} {} - {} {}", pick_sess(r), peer_ctr, near % 65536,
+                        if r.chance(4, 5) { "I" } else { "R" }, if r.chance(3, 4) { "r" } else { "u" },
+                        if r.chance(9, 10) { "n" } else { *r.pick(&["a", "s"]) })
+                }
+                42..=45 => {
+                    let pend: Vec<_> = live.iter().filter(|l| l.3 == "RP").collect();
+                    if pend.is_empty() { "t 10".into() } else {
+                        let l = *r.pick(&pend);
+                        next_h += 1;
+                        format!("acc {} {} h{}", l.0, l.1, next_h)
+                    }
+                }
+                46..=60 => {
+                    // a new message on a live slot without a pending retransmission
+                    let free: Vec<_> = live.iter().filter(|l| !l.4).collect();
+                    if free.is_empty() { format!("tx {} - u - a", pick_sess(r)) } else {
+                        let l = *r.pick(&free);
+                        format!("tx {} {} {} - n", l.0, l.1, if r.chance(4, 5) { "r" } else { "u" })
+                    }
+                }
+                61..=72 => {
+                    // retransmission: the original op text again
+                    if orig_tx.is_empty() { "t 300".into() } else { r.pick(&orig_tx).2.clone() }
+                }
+                73..=80 => {
+                    // the peer acknowledges a pending message (sometimes a wrong counter)
+                    let pend: Vec<_> = g.sessions.iter().flat_map(|s| s.slots.iter().flatten().filter_map(move |sl| sl.rt.map(|rt| (s.uid, sl.id, sl.role.clone(), rt.0)))).collect();
+                    if pend.is_empty() { "t 50".into() } else {
+                        let p = r.pick(&pend).clone();
+                        peer_ctr += 1;
+                        let ack = if r.chance(5, 6) { p.3 as u64 } else { p.3 as u64 + r.range(1, 3) };
+                        format!("rx {} {} {} {} {} {} {}", p.0, peer_ctr, p.1, if p.2.starts_with('R') { "I" } else { "R" }, ack,
+                            if r.chance(1, 2) { "r" } else { "u" }, if r.chance(1, 2) { "a" } else { "n" })
+                    }
+                }
+                81..=88 => {
+                    // put the allocator onto (or just before) a live exchange id: the interesting spot
+                    if live.is_empty() { format!("setxid {}", *r.pick(&edge)) } else {
+                        let l = r.pick(&live);
+                        let v = (l.2 as u64 + 65535 - r.below(2)) % 65536;
+                        format!("setxid {}", if v == 0 { 65535 } else { v.max(1) })
+                    }
+                }
+                89..=91 => format!("tx {} - u {} a", pick_sess(r), peer_ctr),
+                92..=93 => format!("add {} 0 {}", r.below(1 << 32), 6000 + r.below(100)),
+                94 => format!("rm {}", pick_sess(r)),
+                95..=96 => "xid".into(),
+                _ => format!("t {}", *r.pick(&[1u64, 50, 330, 1000, 5000])),
+            };
+            let before = g.clone();
+            let full = exec(&op);
+            let res = result_of(&full).to_string();
+            g = parse_snap(&full);
+            let w: Vec<&str> = op.split_whitespace().collect();
+            match w[0] {
+                "init" => {
+                    if let Some(rest) = res.strip_prefix("x ") {
+                        let mut it = rest.split_whitespace();
+                        let xid: u32 = it.next().and_then(|t| t.parse().ok()).unwrap_or(0);
+                        let idx: usize = it.next().and_then(|t| t.parse().ok()).unwrap_or(0);
+                        handles.push((next_h, w[1].parse().unwrap_or(0), idx));
+                        if xid != before.next_xid {
+                            nt = true;
+                            stats.push("alloc_skip_exch");
+                        }
+                    }
+                }
+                "acc" if res == "ok" => handles.push((next_h, w[1].parse().unwrap_or(0), w[2].parse().unwrap_or(0))),
+                "xdrop" => {
+                    let h: u32 = w[1][1..].parse().unwrap_or(0);
+                    handles.retain(|x| x.0 != h);
+                }
+                "xid" => {
+                    if res.parse::<u32>().ok() != Some(before.next_xid) {
+                        nt = true;
+                        stats.push("alloc_skip_exch");
+                    }
+                }
+                "tx" => {
+                    if res.contains(" rt 1 ") {
+                        nt = true;
+                        stats.push("retransmissions");
+                    }
+                    if res.starts_with("err TxTimeout") {
+                        stats.push("tx_timeouts");
+                    }
+                }
+                _ => {}
+            }
+            // pending originals = slots with a pending retransmission whose op text we know
+            if w[0] == "tx" && res.contains(" rt 0 ") && w[2] != "-" {
+                let (uid, slot): (u32, usize) = (w[1].parse().unwrap_or(0), w[2].parse().unwrap_or(0));
+                orig_tx.retain(|o| !(o.0 == uid && o.1 == slot));
+                orig_tx.push((uid, slot, op.clone()));
+            }
+            orig_tx.retain(|o| {
+                g.sessions.iter().any(|s| s.uid == o.0 && s.slots.get(o.1).and_then(|x| x.as_ref()).map(|sl| sl.rt.is_some()).unwrap_or(false))
+            });
+        }
+    });
+    for k in stats {
+        out.stat(k, 1);
+    }
+    if nt {
+        out.buf.push_str("#nt\n");
+    }
+}
+
+pub fn gen(a: &Args) -> String {
+    let mut r = Rng::new(a.seed);
+    let mut out = Out::default();
+    out.buf.push_str(&format!("#rule {}\n", RULE));
+    let n_cases = if a.thorough { 60000 } else { 5000 };
+    for id in 0..n_cases {
+        let mut cr = r.fork();
+        let len = if a.thorough { cr.range(5, 150) } else { cr.range(5, 60) } as usize;
+        out.case(id, "tab");
+        gen_case(&mut cr, &mut out, len);
+    }
+    out.finish()
+}
+
+pub fn replay(a: &Args) -> String {
+    let text = std::fs::read_to_string(a.input.as_ref().expect("--in")).expect("read input");
+    let mut out = Out::default();
+    for c in parse_cases(&text) {
+        tc::run_case(&mut out, &c);
+    }
+    out.finish()
 }
